@@ -15,10 +15,12 @@ structure ExS where
   mini : Option Addr := none
   miniEff : Effects := []
   exEff : Effects := []
+  gsAddr : Option Addr := none
+  bank : Cgp.Sac.Bank := Cgp.Sac.Bank.empty
 
 abbrev StepOut := Cgp.Drive.Gw.StepOut
 
-def known : List String := Cgp.Drive.Gw.known ++ ["executed"]
+def known : List String := Cgp.Drive.Gw.known ++ ["executed", "gas_paid"]
 def H := Cgp.Drive.Gw.H
 
 def evTokAt (a : Addr) (topics : List ScVal) (data : ScVal) : String :=
@@ -31,7 +33,7 @@ def step (s : ExS) (t : List String) (_implObs : String) : ExS × StepOut :=
     ({ s with g := g', gwAddr := parseAddr addr }, o)
   | ["ex.new", e, m, _gs] =>
     match parseAddr e, parseAddr m with
-    | some e, some m => ({ s with exampleApp := some e, mini := some m }, ⟨"ok", "ok"⟩)
+    | some e, some m => ({ s with exampleApp := some e, mini := some m, gsAddr := parseAddr _gs }, ⟨"ok", "ok"⟩)
     | _, _ => (s, ⟨"parse-error:ex.new", "parse-error"⟩)
   | ["app.execute", app, chain, id, src, payload] =>
     match parseAddr app, ofHex chain, ofHex id, ofHex src, ofHex payload, s.g.st, s.gwAddr with
@@ -52,7 +54,23 @@ def step (s : ExS) (t : List String) (_implObs : String) : ExS × StepOut :=
   | ["app.count"] =>
     let last := match s.miniEff.getLast? with | some (_, _, _, p) => p | none => []
     (s, ⟨"ok u" ++ toString s.miniEff.length ++ " x" ++ toHexTok last, "ok"⟩)
+  | ["ex.send", caller, chain, dest, msg, tok, amt, au] =>
+    -- Example::send: the caller's authorisation, gas payment by the caller (full tree), then the outbound call as the app
+    match parseAddr caller, ofHex chain, ofHex dest, ofHex msg, parseAddr tok, amt.toInt?, Cgp.Drive.Gs.parseTreeAuth au,
+          s.exampleApp, s.gsAddr, s.gwAddr with
+    | some ca, some c, some d, some m, some tk, some a, some au, some ex, some gs, some gwa =>
+      let gsSt : Cgp.GasService.State := { self := gs, owner := gs, collector := gs, bank := s.bank }
+      match exampleSend H gsSt (au.toList [ca]) ex ca c d m tk a with
+      | .error e => (s, ⟨"err", Cgp.Drive.Gs.errName e⟩)
+      | .ok (gs', evs) =>
+        let paid := String.join (evs.map (fun e => evTokAt gs e.topics e.data))
+        let called : String := evTokAt gwa [.sym symContractCalled, .addr ex, .str c, .str d, .bytes (H m)] (.bytes m)
+        ({ s with bank := gs'.bank }, ⟨"ok" ++ paid ++ called, "ok"⟩)
+    | _, _, _, _, _, _, _, _, _, _ => (s, ⟨"parse-error:ex.send", "parse-error"⟩)
   | _ =>
+    match Cgp.Drive.Gs.sacStep s.bank t _implObs with
+    | some (b, o) => ({ s with bank := b }, ⟨o.obs, o.kind⟩)
+    | none =>
     let (g', o) := Cgp.Drive.Gw.step s.g t
     ({ s with g := g' }, o)
 
